@@ -694,7 +694,36 @@ func Forall(vars [][2]string, body *Term, patterns ...[]*Term) *Term {
 		b.WriteString(body.s)
 	}
 	b.WriteString(")")
-	return &Term{s: b.String(), sort: SBool, op: "forall"}
+	return &Term{s: b.String(), sort: SBool, op: "forall", args: []*Term{body}}
+}
+
+// ExistsP is Exists with explicit triggers (used when the formula ends up negated).
+func ExistsP(vars [][2]string, body *Term, patterns ...[]*Term) *Term {
+	if body.isFalse() {
+		return TFalse
+	}
+	if len(patterns) == 0 {
+		return Exists(vars, body)
+	}
+	var b strings.Builder
+	b.WriteString("(exists (")
+	for _, v := range vars {
+		fmt.Fprintf(&b, "(%s %s)", v[0], v[1])
+	}
+	b.WriteString(") (! ")
+	b.WriteString(body.s)
+	for _, p := range patterns {
+		b.WriteString(" :pattern (")
+		for i, x := range p {
+			if i > 0 {
+				b.WriteByte(' ')
+			}
+			b.WriteString(x.s)
+		}
+		b.WriteString(")")
+	}
+	b.WriteString("))")
+	return &Term{s: b.String(), sort: SBool, op: "exists", args: []*Term{body}}
 }
 
 func Exists(vars [][2]string, body *Term) *Term {
